@@ -4,6 +4,7 @@
 -/
 import KiraModel.Exec.SuiteUnits
 import KiraModel.Exec.SuiteParam
+import KiraModel.Exec.SuiteStatic
 
 open K.Exec
 
@@ -20,6 +21,9 @@ def suiteOf (name : String) : Option Suite :=
   match name with
   | "units" => some (statelessSuite unitsStep)
   | "param" => some { σ := ParamState, init := {}, step := paramStep }
+  | "transport" => some { σ := Option K.Transport, init := none, step := transportStep }
+  | "psm" => some { σ := PsmSuiteState, init := {}, step := psmStep }
+  | "static" | "static_ood" => some { σ := StaticSuiteState, init := {}, step := staticStep }
   | _ => none
 
 def tokens (line : String) : List String :=
